@@ -10,6 +10,16 @@ def strJ (s : Str) : Json := Json.str (String.ofList s)
 def strOf (j : Json) : Except String Str := do pure (← strOfJson j).toList
 def intJ (n : Int) : Json := Json.str (toString n)
 
+-- --- T2 helpers
+def optJ {α : Type} (f : α → Json) : Option α → Json
+  | none => Json.null
+  | some a => f a
+def entryOf (j : Json) : Except String (String × Int) := do
+  match (← arrOfJson j) with
+  | [k, v] => pure (← strOfJson k, ← intOfJson v)
+  | _ => throw "expected [key, value]"
+-- --- end T2
+
 def handle (op : String) (j : Json) : Except String Json := do
   match op with
   | "bin" => pure (strJ (bin (← intOfJson (← field j "n"))))
@@ -30,6 +40,47 @@ def handle (op : String) (j : Json) : Except String Json := do
     pure (Json.mkObj [("and", intJ (land a b)), ("or", intJ (lor a b)), ("shr", intJ (shr a b)),
                       ("lowbit", intJ (lowbit a)), ("sum", intJ (OQ.Py.sum [a, b, a])),
                       ("fdiv", intJ (Int.fdiv a b)), ("fmod", intJ (Int.fmod a b))])
+  -- --- T2: iterators, loops that may raise, reduce / max, count dictionaries (see OQ/Exec/Py.lean)
+  | "t2_islice" =>
+    let xs ← listOfJson intOfJson (← field j "xs"); let k ← intOfJson (← field j "k")
+    pure (match islice (iter xs) k with
+      | none => Json.null
+      | some (t, r) => Json.arr #[intsToJson t, intsToJson r])
+  | "t2_while" =>
+    -- `while n > 0: n -= d; c += 1` with a bound on the number of test evaluations
+    let n ← intOfJson (← field j "n"); let d ← intOfJson (← field j "d"); let fuel ← natOfJson (← field j "fuel")
+    pure (match whileFuel (fun (st : Int × Int) => if st.1 > 0 then some (true, (st.1 - d, st.2 + 1)) else some (false, st)) fuel (n, 0) with
+      | none => Json.null
+      | some st => Json.arr #[intJ st.1, intJ st.2])
+  | "t2_loops" =>
+    -- xs: ints; a negative entry makes the loop body raise
+    let xs ← listOfJson intOfJson (← field j "xs"); let ms ← listOfJson intOfJson (← field j "ms")
+    let fo := foldlOpt (fun (acc : Int) (x : Int) => if x < 0 then none else some (2 * acc + x)) 1 xs
+    let mo := mapOpt (fun (x : Int) => if x < 0 then none else some (x * x)) xs
+    let ma := mapAccumOpt (fun (it : Iter Int) (m : Int) => (islice it m).bind (fun r => some (OQ.Py.sum r.1, r.2))) (iter xs) ms
+    pure (Json.mkObj [("fold", optJ intJ fo), ("map", optJ intsToJson mo),
+                      ("accum", optJ (fun (r : List Int × List Int) => Json.arr #[intsToJson r.1, intsToJson r.2]) ma)])
+  | "t2_reduce" =>
+    let xs ← listOfJson intOfJson (← field j "xs")
+    pure (Json.mkObj [("reduce", optJ intJ (reduce1 (fun a b => 3 * a - b) xs)), ("max", optJ intJ (maxList xs)),
+                      ("min", optJ intJ (minList xs))])
+  | "t2_sumlists" =>
+    let xss ← listOfJson (listOfJson intOfJson) (← field j "xss")
+    pure (intsToJson (sumLists xss))
+  | "t2_counter" =>
+    -- d: [[key, value]…]; ops: [[kind, key, value]…] with kind "add" (c[k] += v) or "set" (c[k] = v); probes: keys read with c[k]
+    let d ← listOfJson entryOf (← field j "d")
+    let ops ← listOfJson (fun o => do
+      match (← arrOfJson o) with
+      | [kind, k, v] => pure (← strOfJson kind, ← strOfJson k, ← intOfJson v)
+      | _ => throw "bad op") (← field j "ops")
+    let probes ← listOfJson strOfJson (← field j "probes")
+    let c : Counter String := ops.foldl (fun c o =>
+      if o.1 == "add" then dictSet c o.2.1 (counterGet c o.2.1 + o.2.2) else dictSet c o.2.1 o.2.2) (counterOfDict d)
+    pure (Json.mkObj [("items", Json.arr ((dictItems (dictOfCounter c)).map (fun p => Json.arr #[Json.str p.1, intJ p.2])).toArray),
+                      ("gets", Json.arr (probes.map (fun k => intJ (counterGet c k))).toArray)])
+  | "t2_formatb" => pure (strJ (formatB (← intOfJson (← field j "n"))))
+  -- --- end T2
   | _ => throw s!"unknown prelude op {op}"
 
 end OQ.PY.Driver
